@@ -62,6 +62,13 @@ FINGERPRINTS = {
     "downmix_int_16bit": "fb6113767bdc",
 }
 
+# cases that once failed (module relative to the repository, case seed, frames); run first on every tier
+REGRESSION_CASES = [
+    # endless module (scan time saturated at INT_MAX) + late seek: current_time passed INT_MAX and
+    # xmp_get_frame_info converted it to int (UB) until "fix: xmp_get_frame_info saturates the reported time"
+    ("test-dev/data/longest.med", 523651038168, 400),
+]
+
 M64 = (1 << 64) - 1
 KS = [0, 2, 3, 4, 4, 5, 6, 8, 10, 12, 16, 20]
 
@@ -224,6 +231,11 @@ def pick_modules(ck, n):
 
 def timeline_shard(args):
     exe, seed, ncases, maxframes, nsite, mods = args
+    if seed is None:        # regression case: mods = [module], ncases = case seed
+        rc, out, err = vlib.run_exe(exe, ["--one", mods[0], str(ncases), str(maxframes), str(nsite)], timeout=600)
+        if rc not in (0, 3):
+            err += "\n@@crash %s cseed=%d\n" % (mods[0], ncases)
+        return 0, out.decode("latin-1"), err
     rc, out, err = vlib.run_exe(exe, [str(seed), str(ncases), str(maxframes), str(nsite)] + mods, timeout=2400)
     return rc, out.decode("latin-1"), err
 
@@ -266,23 +278,33 @@ def run_timeline(ck):
         sub = mods[i::nshards]
         if sub:
             shards.append((exe, ck.seed * 104729 + i, per, maxframes, nsite, sub))
+    for rel, cseed, frames in REGRESSION_CASES:
+        pth = os.path.join(vlib.REPO, rel)
+        if os.path.exists(pth):
+            shards.append((exe, None, cseed, frames, 1, [pth]))
     results = vlib.pmap(timeline_shard, shards)
     st = {"timeline_cases": 0, "timeline_frames": 0, "timeline_skipped_modules": 0, "timeline_control_calls_ok": 0,
           "timeline_reconfigurations": 0, "timeline_nonsilent_frames": 0, "timeline_clipped_samples": 0,
           "timeline_samples_compared": 0, "timeline_loops_seen": 0, "site_frames": 0, "site_agree": 0,
-          "timeline_configs_per_case": 11}
+          "timeline_configs_per_case": 11, "timeline_crashes": 0}
     site_lines, site_expect = [], []
     fail_kinds = {}
     for (rc, out, err), sh in zip(results, shards):
         st["timeline_skipped_modules"] += out.count("\nskip ") + (1 if out.startswith("skip ") else 0)
         cases = parse_timeline(out)
         if rc != 0:
-            sig = vlib.sanitizer_signature(err)
-            last = re.findall(r"^begin (.*) cseed=(\d+)", out, re.M)
+            raise vlib.InfraError("c13_timeline driver process failed (rc=%d): %s" % (rc, err[-1500:]))
+        # children that ended abnormally: the sanitizer report precedes the @@crash marker on stderr
+        prev = 0
+        for m in re.finditer(r"^@@crash (.*) cseed=(\d+)$", err, re.M):
+            report = err[prev:m.start()]
+            prev = m.end()
+            sig = vlib.sanitizer_signature(report)
+            st["timeline_crashes"] += 1
             ck.violation("harness-abort:timeline:" + sig,
-                         {"kind": "timeline", "module": last[-1][0] if last else "?", "cseed": int(last[-1][1]) if last else 0,
-                          "maxframes": sh[3], "nsite": 0, "stderr": err[-3000:]},
-                         "rendering under several configurations aborted (rc=%d): %s" % (rc, sig))
+                         {"kind": "timeline", "module": m.group(1), "cseed": int(m.group(2)), "maxframes": sh[3], "nsite": 0,
+                          "stderr": report[-3000:]},
+                         "rendering %s under several configurations aborted: %s" % (os.path.basename(m.group(1)), sig))
         for c in cases:
             s = c["stat"]
             st["timeline_cases"] += 1
